@@ -134,6 +134,8 @@ def run(ctx):
             rep.sample('periodic: shells in %s, zero=false' % sorted(set(sh)))
         # ---- R5 prefilter ---------------------------------------------------------------------------
         _prefilter(ctx, pl, per)
+    # ---- R6 the radius used by the prefilter really encloses the shape ---------------------------------
+    _enclosing(ctx)
     # ---- FRAME ------------------------------------------------------------------------------------
     probs = positions_frames(f, ADT)
     rep.check(not probs, 'FRAME', 'placements-are-cartesian', ADT, 'cartesian_positions = relative_positions().map(to_cartesian_isometry); '
@@ -215,3 +217,64 @@ def _prefilter(ctx, pl, per):
                     why = 'threshold is not a polynomial in the enclosing radius'
         rep.check(ok, 'R5', 'prefilter-sound', where(b, sb), why, why)
         rep.sample('prefilter: %s' % why)
+
+
+def _enclosing(ctx):
+    """enclosing_radius() >= distance from the origin to any point of the shape: max over components of
+    |centre| + radius (discs) / |vertex| (polygon edges; every vertex is the start of exactly one edge)."""
+    rep, f = ctx.rep, ctx.facts
+    from ..lineage import adaptor_chain
+    from ..sym import SymEx
+    from fractions import Fraction
+    want = {
+        'shape::molecular_shape2::MolecularShape2': 'disc',
+        'shape::line_shape::LineShape': 'edge',
+    }
+    k = 0
+    for adt, kind in want.items():
+        b = f.one(self_adt=adt, trait='Shape', name='enclosing_radius')
+        if not rep.check(b is not None, 'R6', 'anchor:enclosing_radius:%s' % adt, adt, 'found', 'enclosing_radius not found', 'anchor-lost'):
+            continue
+        rep.saw(b)
+        k += 1
+        t = Tracer(b)
+        src, chain = adaptor_chain(t, {'k': 'copy', 'l': 0, 'p': []})
+        names = [c[0] for c in chain]
+        ok = names[:2] == ['fold', 'map'] and all(x in ('fold', 'map', 'iter', 'into_iter', 'deref') for x in names)
+        why = 'enclosing_radius is not items.iter().map(extent).fold(MIN, f64::max): %s' % names
+        if ok:
+            ft = chain[0][1]
+            fn = t.origin(ft['args'][2])
+            fnn = (fn.get('c', {}).get('fn') or '') if fn['o'] == 'const' else ''
+            init = t.origin(ft['args'][1])
+            iv = const_value(init['c']) if init['o'] == 'const' else None
+            ok = fnn.endswith('<impl f64>::max') and isinstance(iv, float) and iv <= 0.0
+            why = 'fold does not take the maximum starting from a non-positive value (fn %s, init %s)' % (fnn, iv)
+        if ok:
+            mt = [c for c in chain if c[0] == 'map'][0][1]
+            co = t.origin(mt['args'][1])
+            cb = f.body(co['rv']['closure']) if co['o'] == 'rvalue' and co['rv'].get('agg') == 'closure' else None
+            ok = False
+            why = 'extent closure not found'
+            if cb is not None:
+                n = Norm()
+                sx = SymEx(f)
+                outs = sx.run(cb, [SYM('env'), SYM('p')])
+                if len(outs) == 1 and not sx.aborted:
+                    try:
+                        got = n.rf(outs[0].ret)
+                        if kind == 'disc':
+                            x, y = n.atom('p.position.x'), n.atom('p.position.y')
+                            ref = n.fn('sqrt', x * x + y * y) + n.atom('p.radius')
+                        else:
+                            x, y = n.atom('p.start.x'), n.atom('p.start.y')
+                            ref = n.fn('sqrt', x * x + y * y)
+                        ok = got.equals(ref)
+                        why = 'extent of a component = %s' % got.canon()[:160]
+                    except NotNumeric as ex:
+                        why = str(ex)[:100]
+        rep.check(ok, 'R6', 'enclosing-radius-encloses:%s' % adt, where(b),
+                  'max over components of %s' % ('|centre| + radius' if kind == 'disc' else '|start vertex|'),
+                  'the radius the prefilter relies on does not bound the shape: %s — pairs whose circumcircles overlap are skipped '
+                  'although the shapes can overlap' % why)
+    rep.floor('R6', 'hard shapes with a checked enclosing radius', k, 2)
